@@ -39,7 +39,8 @@ CLAIMS.update({
         technique="static analysis: abstract interpretation of the FFT wrappers to shift/transform/shift*scale normal forms; shift-group and scale algebra; star-import replay for exports",
         text=("Inverse-pair, Parseval-scale and centring clauses are decided on the normal forms of ft/ift/ft2/ift2 (and the real "
               "variants) for every length N and batch shape: inverse shifts, axes sets, product of scales equal to 1 at "
-              "delta_f = 1/(N delta), canonical ifftshift/fftshift centring; what aotools.<name> binds to is decided by replaying "
+              "delta_f = 1/(N delta), canonical ifftshift/fftshift centring (also when written as numpy.roll: parity analysis of the roll "
+              "amount); what aotools.<name> binds to is decided by replaying "
               "the package's imports. Quadrature accuracy of the DFT is not decided. Known findings: the real-input variants."),
         note="Trusted: numpy.fft normalisation and shift definitions; 2-D wrappers are used on square trailing axes."),
     "C10": dict(
@@ -99,7 +100,8 @@ CLAIMS.update({
         technique="static analysis: per-path normal forms of the centroiders; homogeneity-degree queries; branch-sibling agreement; comparison with oracle definitions",
         text=("Scale invariance of every centroider on every rank path (degree 0 in the image), agreement of the 2-D and N-D threshold "
               "transforms and per-frame reductions (stack = frames), moment formulas and (x, y) order, rank-threshold of "
-              "brightest_pixel, cross-correlation formula and padding offset, quad-cell numerator. Exact shift equivariance and "
+              "brightest_pixel, cross-correlation formula and padding offset (both components), no array carried from one frame to the next "
+              "through a second name, quad-cell numerator. Exact shift equivariance and "
               "correlation peak position are not decided. Known findings: quadCell not normalised; centre_of_gravity 2-D vs N-D."),
         note="Trusted: homogeneity table of numpy reductions in sa/plf.py; min_threshold = 0; images non-negative."),
     "C14": dict(
@@ -147,7 +149,9 @@ CLAIMS.update({
         technique="static analysis: reconstructor body reduced to a normal form (affine slice bounds, dot, pinv with its conditioning, transpose algebra) and compared with the minimum-variance formula; wrapper arguments from its normal form",
         text=("The returned matrix is C[:2n, 2n:] . pinv(C[2n:, 2n:], rcond) and the wrapper passes its own matrix, the first "
               "sensor's count and its conditioning argument; with the pseudo-inverse lemma this is the normal-equation solution on "
-              "the retained subspace for every PSD input. The duplicate-sensor clause (needs covariance values) is not decided."),
+              "the retained subspace for every PSD input; every path of the wrapper recomputes from the current matrix (no stale cache). "
+              "Duplicate-sensor clause: only its structural part (the builder carries nothing from one sensor's iteration to the next); "
+              "the covariance values themselves are C01's subject."),
         note="Trusted: B M^+ solves R M = B on range(M) and minimises the residual (pinv contract)."),
     "C03": dict(
         category="proof", design="DESIGN.md §3 C03",
@@ -164,7 +168,9 @@ CLAIMS.update({
               "concatenation order, Euclidean separations x pixel_scale in both kernels, gather coordinates = covariance "
               "coordinates, new row at row -1, row = A Z + B b with one N(0,1) draw (Fried: A (Z - rho) + B b + rho), "
               "phase_covariance(separations, r0, L0), von Karman stencil rows, and a constructor order in which every step's inputs "
-              "exist. Conditioning, stationarity as a statistical fact and Fried's stencil geometry are not decided."),
+              "exist; floating dtype of the separation matrix; the initial screen is drawn from the instance generator itself (innovation "
+              "independent of the screen); no state shared between instances. Conditioning, stationarity as a statistical fact and "
+              "Fried's stencil geometry are not decided."),
         note="Trusted: cho_solve(cho_factor(M), I) = inv(M); svd of symmetric PSD; algebra lemma of Assemat & Wilson."),
     "C05": dict(
         category="other", design="DESIGN.md §3 C05",
@@ -185,9 +191,24 @@ CLAIMS.update({
 })
 
 NOT_APPLICABLE = {
-    "C13": ("every clause is about the output of eigh / eigenvalue sorting / bilinear resampling error computed at "
-            "run time; no code-shape fact is a necessary condition that static analysis can decide (DESIGN §5)"),
 }
+
+CLAIMS.update({
+    "C13": dict(
+        category="other", design="DESIGN.md §5, §12.4",
+        technique="static analysis: normal forms of the geometric and bookkeeping functions of karhunenLoeve.py compared with oracle definitions; algebraic inverse relation between the polar synthesis grid and the Cartesian look-up indices; driver wiring read from the interpreter's call and store logs",
+        text=("Structural clauses only. Decides: the returned pupil and the mask applied to the Cartesian rendering are the annulus indicator "
+              "ri^2 <= x^2 + y^2 <= 1 on the pixel-centre grid of the same geometry object (so the masked rendering is zero outside the annulus); "
+              "the Cartesian look-up indices are the exact inverse maps of the polar synthesis grid (radial and azimuthal), clipped inside the "
+              "table, with bilinear 'nearest'-edge interpolation; make_kl renders mode i as pol2car(geometry, gkl_sfi(base, i), mask) for all "
+              "nmax modes and returns base['evals']; gkl_sfi is radial column x azimuthal row of the same index; azimuthal rows are 1, cos, sin "
+              "of the paired orders; piston_orth is Cannon's eq. 19 matrix; equal-area radial grid; selection by argsort(-eigenvalues); quadrature "
+              "weight and eigenvector scalings sqrt(nr), sqrt(2 nr). NOT decided (most of the property): orthonormality to grid accuracy, zero "
+              "mean, the diagonalised covariance, positivity and tip = tilt of the variances, the resampling error - all of which are values "
+              "produced by eigh / map_coordinates at run time."),
+        note=("Trusted: scipy.ndimage.map_coordinates order=1 is bilinear interpolation at fractional indices; rebin replicates; eigh returns "
+              "orthonormal eigenvectors; oracle text in sa/props/c13.py (Cannon 1996). Necessary conditions, not the behaviour.")),
+})
 
 PENDING_REASON = "clauses decidable in principle (DESIGN §3) but the checker is not built yet; not claimed through a weaker proxy"
 
